@@ -95,7 +95,10 @@ def gen_cases(tier, seed):
     overrides = [("milk_cattle_head", 50000), ("chicken_head", 123456), ("kg_meat_per_large_animal", 350), ("CROP_PRODUCTION_MULTIPLIER", 0.5),
                  ("MINIMUM_PERCENT_FED_BEFORE_NONHUMAN_CONSUMPTION_ALLOWED", 50), ("meat_sheep_head", 1000), ("GRASSES_PRODUCTION_MULTIPLIER", 2), ("RATIO_STOCKS_UNTOUCHED", 0.5)]
     rnd.shuffle(overrides)
-    for k, (key, val) in enumerate(overrides[: (4 if tier == "quick" else 8)] * (1 if tier == "quick" else 3)):
+    # (head-count overrides go through the herd tables, the others through the option handling: the quick tier always has two of each)
+    heads = [x for x in overrides if x[0].endswith("_head")]
+    overrides = (heads[:2] + [x for x in overrides if not x[0].endswith("_head")][:2]) if tier == "quick" else overrides
+    for k, (key, val) in enumerate(overrides * (1 if tier == "quick" else 3)):
         iso = rnd.choice(["ARG", "SWT", "IND", "FRA", "MNG", "ETH", "NZL", "PAK"])
         o = workload.base_country(scenario=rnd.choice(["no_resilient_foods", "all_resilient_foods"]), shutoff=rnd.choice(["continued", "long_delayed_shutoff"]),
                                   ratio_stocks_untouched=rnd.choice(["zero", "baseline"]), NMONTHS=rnd.choice([120, 72]))
